@@ -97,3 +97,6 @@ def run(out, tier, seed):
         jobs.append({"cfg": dict(S=U3[0], P=U3[1], O=U3[2], names=names4, facade=fac, default_union=(fac == "cg" or i % 2 == 0),
                                  vocab=["plain", "falsy", "hostile", "typed"][i % 4], obs="all" if i % 5 == 0 else "last"), "events": decorate(evs, i)})
     out.conform(__name__, TRACE, jobs, nontrivial=nontrivial, chunk=600)
+    # graph views of one dataset under the Graph-level API (a -= on one view must not reach into the other graphs): TraceGraphAlgebra.tla
+    from . import g04
+    g04.add_jobs(out, tier, seed, stores=["shared", "shared_default", "mixed"], label="graph-api-views")
